@@ -41,6 +41,9 @@ def build(desc):
         for a in s["actions"]:
             if a["op"] == "place":
                 a["client"] = rng.randrange(n_clients)
+    if desc["idx"] % 4 == 1:
+        for s in case["strategies"]:
+            s["limits"] = dict(s.get("limits") or {}, market=1e6)  # (a market limit is configured: never reached, but evaluated)
     if desc["idx"] % 7 == 5 and len(case["strategies"]) > 1:
         # two instances of one strategy class added without distinct names (flumine only warns): each has its own orders in every view
         case["strategies"][1]["name"] = case["strategies"][0]["name"]
